@@ -248,7 +248,11 @@ func registryScenario(init int, progs [][]regOp) *scenario {
 				r.Ret = 1<<40 + seq
 				hist = append(hist, r)
 			}
-			if !linearizable(m0, hist) {
+			lin := linearizable(m0, hist)
+			if pl := porcLinearizable(m0, hist); pl != lin {
+				return &finding{Kind: "harness-checker-disagreement", Detail: fmt.Sprintf("brute force says %v, porcupine says %v: %s", lin, pl, histString(hist))}
+			}
+			if !lin {
 				return &finding{Kind: "not-linearizable", Detail: "no sequential order of the calls consistent with real time explains the results: " + histString(hist)}
 			}
 			lastHist = hist
